@@ -8,7 +8,7 @@ from . import core, httpgen as hg, httpcheck as hc
 XDEVS = ["schema.empty_value_allowed", "schema.map_key_rule_undocumented", "schema.map_length_undocumented", "schema.uint_minimum_missing",
          "schema.optional_not_nullable", "schema.bytes_length_on_encoded_text", "schema.response_cookie_value_schema", "schema.error_response_media_type"]
 TDEVS = ["param.empty_string_is_absent", "validate.absent_collection_length", "client.path_not_escaped", "mux.double_unescape",
-         "response.header_array_joined", "cookie.value_sanitized", "server.required_cookie_resets_errors"]
+         "response.header_array_joined", "cookie.value_sanitized", "validate.exclusive_max_unchecked", "decode.required_cookie_drops_param_errors"]
 ALLDEVS = XDEVS + TDEVS
 INVS = "SchemaAgreesWithServer SchemaAgreesWithDesign ProducedResponseConforms"
 
@@ -42,6 +42,9 @@ def sample_shapes(shapes, nshapes, seed):
     rnd.shuffle(keys)
     fields = ("kind", "loc", "mode", "rule", "nest")
     pairs = {k: {(f, by[k][f], g, by[k][g]) for i, f in enumerate(fields) for g in fields[i + 1:]} for k in keys}
+    for k in keys:      # the shapes raw requests are built for (plain attribute without rule): every kind, every location
+        if by[k]["nest"] == "direct" and by[k]["rule"] == "none":
+            pairs[k] |= {("raw-kind", by[k]["kind"]), ("raw-loc", by[k]["loc"], by[k]["mode"])}
     todo = set().union(*pairs.values())
     keep = []
     while todo:
